@@ -193,6 +193,33 @@ fn distance_case(k: u64) -> Case {
         ..Case::default()
     }
 }
+/// Every regular input family (the instruction clock's) at a size where its repeated thing is
+/// counted past 2^16 (thorough: past 2^18): the interfaces must still agree.
+pub fn mega_sizes() -> &'static [usize] {
+    if HUGE_ON.load(std::sync::atomic::Ordering::Relaxed) {
+        &[700_000, 2_800_000]
+    } else {
+        &[700_000]
+    }
+}
+pub fn mega_count() -> u64 {
+    (crate::scale::FAMILIES.len() * 3 * mega_sizes().len()) as u64
+}
+fn mega_case(k: u64) -> Case {
+    let client = [Client::PeekNext, Client::LoadMulti, Client::LoadSingle][(k % 3) as usize].clone();
+    let nf = crate::scale::FAMILIES.len() as u64;
+    let fam = crate::scale::FAMILIES[((k / 3) % nf) as usize];
+    let size = mega_sizes()[((k / 3 / nf) as usize) % mega_sizes().len()];
+    Case {
+        prop: "C17".into(),
+        gen: "L-family-mega".into(),
+        text: crate::scale::render(fam, size),
+        input: InputKind::Str,
+        peeks: if client == Client::PeekNext { vec![0, 1, 0, 2] } else { vec![] },
+        client,
+        ..Case::default()
+    }
+}
 pub fn probe_count() -> u64 {
     (PROBE_FAMILIES.len() * PROBE_SIZES.len() * PROBE_TAILS.len() * 3) as u64 + deep_count() + huge_count() + distance_count()
 }
@@ -205,6 +232,7 @@ fn probe_case(k: u64) -> Case {
         return distance_case(k);
     }
     let k = k - distance_count();
+
     if k < deep_count() {
         let client = [Client::PeekNext, Client::LoadMulti, Client::LoadSingle][(k % 3) as usize].clone();
         let j = k / 3;
@@ -255,9 +283,9 @@ pub fn exhaustive_plan(ctx: &Ctx, thorough: bool) -> (u64, String) {
     let total = t.last().map_or(0, |e| e.offset + e.count);
     let max_m = t.iter().map(|e| e.m).max().unwrap_or(0);
     (
-        total + probe_count(),
+        total + probe_count() + mega_count(),
         format!(
-            "every peek/next history (0..2 peeks before each next, 7 after-StreamEnd tails) of {} streams with up to {} events; plus {} large probe streams ({:?} at {:?} bytes x 7 back-referring tail documents x 3 clients, and block nests of 255..70 000 levels x 4 openers x 3 clients)",
+            "every peek/next history (0..2 peeks before each next, 7 after-StreamEnd tails) of {} streams with up to {} events; plus {} large probe streams ({:?} at {:?} bytes x 7 back-referring tail documents x 3 clients, and block nests of 255..70 000 levels x 4 openers x 3 clients; an anchor and its alias 1..65 536 documents apart x 3 clients; every one of the 54 regular input families at 700 kB (thorough: and 2.8 MB) x 3 clients)",
             t.len(),
             max_m,
             probe_count(),
@@ -277,6 +305,15 @@ fn draw_env(r: &mut SplitMix64) -> InputKind {
 }
 
 pub fn generate(run_seed: u64, ctx: &Ctx, sw: &Swarm, i: u64, exhaustive: u64) -> Case {
+    // the megabyte cases are spread one per chunk over the start of the exhaustive region
+    let (i, exhaustive) = if i < exhaustive {
+        match crate::batch::spread(i, mega_count()) {
+            Ok(k) => return mega_case(k),
+            Err(j) => (j, exhaustive - mega_count()),
+        }
+    } else {
+        (i, exhaustive)
+    };
     if i < exhaustive && i >= exhaustive - probe_count() {
         return probe_case(i - (exhaustive - probe_count()));
     }
